@@ -104,8 +104,13 @@ def build(n, spec, density=False):
 
     c = Circuit(n, density_matrix=density)
     cbs = []
+    objs = []
     for s in spec:
         kind = s[0]
+        if kind == "R":  # the same gate OBJECT as spec item s[1], added again
+            objs.append(objs[s[1]])
+            c.add(objs[s[1]])
+            continue
         if kind == "U":
             g = gates.Unitary(np.array(s[1]), *s[2], check_unitary=False)
             if s[3]:
@@ -126,16 +131,21 @@ def build(n, spec, density=False):
             g = gates.CallbackGate(cb)
         else:  # pragma: no cover
             raise ValueError(kind)
+        objs.append(g)
         c.add(g)
     return c, cbs
 
 
 def code(n, spec, density=False):
-    """python source that rebuilds the circuit `c` of a spec."""
+    """python source that rebuilds the circuit `c` of a spec (gate objects g0, g1, ...)."""
     lines = ["import numpy as np", "from qibo import Circuit, gates, callbacks", "from qibo.backends import NumpyBackend",
              "nb = NumpyBackend()", f"c = Circuit({n}, density_matrix={density})", "cbs = []"]
-    for s in spec:
+    for idx, s in enumerate(spec):
         kind = s[0]
+        if kind == "R":
+            lines.append(f"g{idx} = g{s[1]}  # the same gate object again")
+            lines.append(f"c.add(g{idx})")
+            continue
         if kind == "U":
             m = [[complex(x) for x in row] for row in s[1]]
             ctor = f"gates.Unitary(np.array({m}), *{list(s[2])}, check_unitary=False)"
@@ -154,11 +164,14 @@ def code(n, spec, density=False):
         else:
             lines.append("cbs.append(callbacks.Norm())")
             ctor = "gates.CallbackGate(cbs[-1])"
-        lines.append(f"c.add({ctor})")
+        lines.append(f"g{idx} = {ctor}")
+        lines.append(f"c.add(g{idx})")
     return "\n".join(lines) + "\n"
 
 
 def spec_support(s):
+    if s[0] == "R":
+        return spec_support(s[2])
     if s[0] == "M":
         return tuple(s[1])
     if s[0] == "CB":
@@ -171,7 +184,9 @@ def spec_support(s):
 def short(spec):
     out = []
     for s in spec:
-        if s[0] == "U":
+        if s[0] == "R":
+            out.append(f"again#{s[1]}")
+        elif s[0] == "U":
             out.append(f"U{list(s[2])}" + (f"c{list(s[3])}" if s[3] else ""))
         elif s[0] == "N":
             out.append(f"{s[1]}{list(s[2])}" + (f"c{list(s[3])}" if s[3] else ""))
@@ -184,8 +199,21 @@ def short(spec):
     return " ".join(out)
 
 
+def has_reuse(spec):
+    return any(s[0] == "R" for s in spec)
+
+
+def fkey(prefix, what, spec):
+    """key of a failure: circuits that add one gate OBJECT several times have their own key."""
+    if has_reuse(spec):
+        return ("light_cone" if prefix == "cone" else prefix) + ":repeated-object"
+    return f"{prefix}:{what}:{key_class(spec)}"
+
+
 def key_class(spec):
     """stable short key of the input class of a failing circuit."""
+    if has_reuse(spec):
+        return "repeated-object"
     if any(s[0] in ("M", "CB") for s in spec):
         return "special"
     if any((s[0] == "P" and s[4]) or (s[0] in ("U", "N") and s[3]) for s in spec):
@@ -218,17 +246,27 @@ def gate_sig(g):
 
 
 def real_groups(c, fused):
-    """groups of the fused queue as positions in the original queue (by object identity;
-    by signature if the implementation ever starts copying gates).  None if a gate of the
-    fused queue is not a gate of the original."""
+    """groups of the fused queue as POSITIONS in the original queue.  A gate object may have
+    been added several times: its occurrences are handed out in queue order (two occurrences
+    of one object act on the same qubits, so no trace-equivalent reordering can swap them).
+    Falls back to signatures if the implementation ever starts copying gates.  None if the
+    fused queue holds a gate (or one occurrence too many of a gate) that the original lacks."""
     from qibo import gates
 
-    ids = {id(g): i for i, g in enumerate(c.queue)}
+    occ = {}
+    for i, g in enumerate(c.queue):
+        occ.setdefault(id(g), []).append(i)
+    nxt = {k: 0 for k in occ}
     used = set()
 
     def pos(g):
-        i = ids.get(id(g))
-        if i is None:
+        i = None
+        lst = occ.get(id(g))
+        if lst is not None:
+            if nxt[id(g)] < len(lst):
+                i = lst[nxt[id(g)]]
+                nxt[id(g)] += 1
+        else:
             sig = gate_sig(g)
             for j, h in enumerate(c.queue):
                 if j not in used and gate_sig(h) == sig:
@@ -240,7 +278,7 @@ def real_groups(c, fused):
 
     groups, objs = [], []
     for g in fused.queue:
-        if isinstance(g, gates.FusedGate) and id(g) not in ids:
+        if isinstance(g, gates.FusedGate) and id(g) not in occ:
             grp = [pos(m) for m in g.gates]
         else:
             grp = [pos(g)]
@@ -384,6 +422,47 @@ def manual_run(circ, psi):
     return np.asarray(state)
 
 
+def reuse_spec(rng, n, depth, unitary_only=False, floats=False, dense=False):
+    """circuits in which gate OBJECTS are added 2-3 times (adjacent and distant positions;
+    1-, 2-, 3-qubit, controlled and parametrised gates), mixed with fresh gates."""
+    spec = []
+    uses = {}
+    while len(spec) < depth:
+        orig = [i for i, s0 in enumerate(spec) if s0[0] not in ("R", "M", "CB") and uses.get(i, 1) < 3]
+        r = rng.random()
+        if orig and r < 0.45:
+            k = orig[-1] if rng.random() < 0.3 else rng.choice(orig)  # adjacent or distant
+            spec.append(("R", k, spec[k]))
+            uses[k] = uses.get(k, 1) + 1
+        else:
+            spec.append(rand_spec_gate(rng, n, dense=dense, unitary_only=unitary_only, floats=floats))
+    if not has_reuse(spec):
+        k = rng.randrange(len(spec))
+        spec.append(("R", k, spec[k]))
+    return spec
+
+
+def reuse_patterns(rng, n, unitary_only=False):
+    """small systematic family:  A  ent  B  ent  C  with `ent` ONE object on every qubit
+    subset and A, B, C fresh gates on every subset (B between the two occurrences)."""
+    out = []
+    sups = supports(n)
+    for e in sups:
+        for b in sups:
+            for a_, c_ in ((rng.choice(sups), rng.choice(sups)) for _ in range(2)):
+                def mk(sup):
+                    qs = list(sup)
+                    rng.shuffle(qs)
+                    return spec_unitary(rng, qs, (), dense=not unitary_only, unitary=unitary_only)
+                spec = [mk(a_), mk(e), mk(b)]
+                spec.append(("R", 1, spec[1]))
+                spec.append(mk(c_))
+                if rng.random() < 0.3:
+                    spec.append(("R", 1, spec[1]))
+                out.append(spec)
+    return out
+
+
 def layered_spec(rng, n, layers):
     """adversarial shape: non-commuting partners separated by gates on other qubits."""
     spec = []
@@ -439,6 +518,17 @@ def fusion_cases(ctx):
     for _ in range(500 if ctx.thorough else 160):
         n = rng.randint(3, 6)
         spec = layered_spec(rng, n, rng.randint(2, 6))
+        cases.append((n, spec, list(range(1, n + 1)), "exec"))
+    # gate objects added several times
+    for n in (2, 3):
+        pats = reuse_patterns(rng, n)
+        if not ctx.thorough and n == 3:
+            pats = rng.sample(pats, 40)
+        for spec in pats:
+            cases.append((n, spec, list(range(1, n + 1)), "exec"))
+    for _ in range(300 if ctx.thorough else 90):
+        n = rng.randint(1, 5)
+        spec = reuse_spec(rng, n, rng.randint(2, 16), dense=rng.random() < 0.3 and n <= 3)
         cases.append((n, spec, list(range(1, n + 1)), "exec"))
     for _ in range(200 if ctx.thorough else 60):
         n = rng.randint(1, 4)
@@ -519,7 +609,7 @@ def fusion_suite(ctx):
         # -- flatten(real) is a permutation and ~t the input (Lean decision)
         if sorted(flat) != list(range(len(c.queue))) or teq != "1":
             teq_bad += 1
-            ctx.fail(f"fuse:order:{key_class(spec)}", f"flattened fused queue of {short(spec)} (max_qubits={mq}) is not a reordering of the original queue that keeps the order of gates sharing a qubit: {it.groups}",
+            ctx.fail(fkey("fuse", "order", spec), f"flattened fused queue of {short(spec)} (max_qubits={mq}) is not a reordering of the original queue that keeps the order of gates sharing a qubit: {it.groups}",
                      hdr + TEQ_PY, expected="trace equivalent to " + str(list(range(len(c.queue)))), observed=str(it.groups),
                      broken=["C07_corr_fuse_traceeq"])
         # -- group sizes / qubit sets
@@ -528,7 +618,7 @@ def fusion_suite(ctx):
                 want = tuple(sorted({q for i in grp for q in c.queue[i].qubits}))
                 if tuple(g.target_qubits) != want or len(want) > mq or g.control_qubits != ():
                     sizes_bad += 1
-                    ctx.fail(f"fuse:group-qubits:{key_class(spec)}", f"fused group {grp} of {short(spec)} (max_qubits={mq}) has qubits {g.target_qubits}, members act on {want}",
+                    ctx.fail(fkey("fuse", "group-qubits", spec), f"fused group {grp} of {short(spec)} (max_qubits={mq}) has qubits {g.target_qubits}, members act on {want}",
                              hdr + f"for g in f.queue:\n    if isinstance(g, gates.FusedGate):\n        want = tuple(sorted({{q for m in g.gates for q in m.qubits}}))\n        assert tuple(g.target_qubits) == want and len(want) <= {mq}, (g.target_qubits, want)\n",
                              expected=str(want), observed=str(tuple(g.target_qubits)), broken=["C07_search_fuse_sizes"])
             ctx.stat(f"group_size_{min(len(grp), 6)}")
@@ -598,11 +688,12 @@ def fusion_suite(ctx):
         cb_ok = len(cb_ref) == len(cb_out) and all(len(a) == len(b) and np.allclose(a, b, rtol=1e-12, atol=1e-9) for a, b in zip(cb_ref, cb_out))
         if not np.array_equal(out, ref) or not cb_ok:
             sem_bad += 1
-            ctx.fail(f"fuse:state:{key_class(spec)}", f"fused circuit (max_qubits={mq}) of {short(spec)} maps an initial state to a different final state" + ("" if cb_ok else " / callback values differ"),
+            ctx.fail(fkey("fuse", "state", spec), f"fused circuit (max_qubits={mq}) of {short(spec)} maps an initial state to a different final state" + ("" if cb_ok else " / callback values differ"),
                      hdr + f"psi = np.array({psi.tolist()})\nref = nb.execute_circuit(c, initial_state=psi.copy()).state()\nr0 = [list(cb.results) for cb in cbs]\n"
                      "out = nb.execute_circuit(f, initial_state=psi.copy()).state()\nr1 = [list(cb.results[len(a):]) for cb, a in zip(cbs, r0)]\n"
                      "assert np.array_equal(out, ref), (out, ref)\nassert all(np.allclose(a, b) for a, b in zip(r0, r1)), (r0, r1)\n",
-                     expected=str(ref.tolist()), observed=str(out.tolist()), broken=["C07_search_fuse_semantics"])
+                     expected=str(ref.tolist()), observed=str(out.tolist()),
+                     broken=["C07_search_fuse_semantics"] + (["C07_corr_fuse_structure", "C07_corr_fuse_traceeq", "C07_corr_fuse_sim", "C07_corr_matrix_fused", "C07_search_fuse_sizes"] if has_reuse(spec) else []))
         # -- Lean simulator on the ORIGINAL queue, and Lean matrix_fused model on the REAL grouping
         if n <= 5 and len(spec) <= 16 and (len(spec) > 4 or k % (3 if ctx.thorough else 8) == 0):
             ng, gl = lean_gate_tokens(c)
@@ -644,13 +735,13 @@ def fusion_suite(ctx):
             hdr = code(it.n, it.spec) + f"f = c.fuse(max_qubits={it.mq})\n"
             if kind == "FMAT":
                 mat_bad += 1
-                ctx.fail(f"fuse:matrix_fused:{key_class(it.spec)}", f"matrix of the fused group {grp} of {short(it.spec)} (max_qubits={it.mq}) is not the product of its members",
+                ctx.fail(fkey("fuse", "matrix_fused", it.spec), f"matrix of the fused group {grp} of {short(it.spec)} (max_qubits={it.mq}) is not the product of its members",
                          hdr + f"expected = np.array({model.tolist()})\ng = [g for g in f.queue if isinstance(g, gates.FusedGate)]\n"
                          "assert any(np.array_equal(np.asarray(x.matrix(nb)).reshape(-1), expected) for x in g)\n",
                          expected=str(model.tolist()), observed=str(real.tolist()), broken=["C07_corr_matrix_fused"])
             else:
                 lean_bad += 1
-                ctx.fail(f"fuse:state-vs-model:{key_class(it.spec)}", f"fused circuit (max_qubits={it.mq}) of {short(it.spec)}: final state differs from the Lean simulator ({kind})",
+                ctx.fail(fkey("fuse", "state-vs-model", it.spec), f"fused circuit (max_qubits={it.mq}) of {short(it.spec)}: final state differs from the Lean simulator ({kind})",
                          hdr + f"psi = np.array({it.psi.tolist()})\nout = nb.execute_circuit(f, initial_state=psi.copy()).state()\nexpected = np.array({model.tolist()})\nassert np.array_equal(out, expected), (out, expected)\n",
                          expected=str(model.tolist()), observed=str(real.tolist()), broken=["C07_corr_fuse_sim"])
     ctx.ob("C07_model_selfcheck", model_bad == 0, "correspondence", f"{model_bad} model outputs violate sizes/perm/~t (contradicting T07_fuse_trace / T07_fuse_perm / T07_fuse_groups_ok: driver or model file changed?)" if model_bad else "")
@@ -666,10 +757,17 @@ def fusion_suite(ctx):
         fusion_deep_search(ctx, 1500)
 
 
-TEQ_PY = """ids = {id(g): i for i, g in enumerate(c.queue)}
-flat = []
-for g in f.queue:
-    flat += [ids[id(m)] for m in g.gates] if (isinstance(g, gates.FusedGate) and id(g) not in ids) else [ids[id(g)]]
+POS_PY = """occ = {}
+for i, g in enumerate(c.queue):
+    occ.setdefault(id(g), []).append(i)
+def groups(f):
+    nxt = {k: 0 for k in occ}
+    def pos(g):
+        nxt[id(g)] += 1
+        return occ[id(g)][nxt[id(g)] - 1]
+    return [[pos(m) for m in g.gates] if (isinstance(g, gates.FusedGate) and id(g) not in occ) else [pos(g)] for g in f.queue]
+"""
+TEQ_PY = POS_PY + """flat = [i for grp in groups(f) for i in grp]
 assert sorted(flat) == list(range(len(c.queue))), flat
 def sup(g):
     return set(range(c.nqubits)) if isinstance(g, gates.SpecialGate) else set(g.qubits)
@@ -695,7 +793,7 @@ def fusion_deep_search(ctx, count):
             out = np.asarray(nb.execute_circuit(f, initial_state=psi.copy()).state())
             ctx.case(("deep", n, mq, short(spec)))
             if not np.array_equal(out, ref):
-                ctx.fail(f"fuse:state:{key_class(spec)}", f"fused circuit (max_qubits={mq}) of {short(spec)} maps an initial state to a different final state",
+                ctx.fail(fkey("fuse", "state", spec), f"fused circuit (max_qubits={mq}) of {short(spec)} maps an initial state to a different final state",
                          code(n, spec) + f"f = c.fuse(max_qubits={mq})\npsi = np.array({psi.tolist()})\nref = nb.execute_circuit(c, initial_state=psi.copy()).state()\n"
                          "out = nb.execute_circuit(f, initial_state=psi.copy()).state()\nassert np.array_equal(out, ref), (out, ref)\n",
                          expected=str(ref.tolist()), observed=str(out.tolist()), broken=["C07_search_fuse_semantics", "C07_corr_fuse_structure"])
@@ -712,7 +810,7 @@ def fusion_variants(ctx):
     re_lines, re_meta = [], []
     for _ in range(120 if ctx.thorough else 40):
         n = rng.randint(2, 5)
-        spec = random_spec(rng, n, rng.randint(3, 14), special=rng.random() < 0.4)
+        spec = random_spec(rng, n, rng.randint(3, 14), special=rng.random() < 0.4) if rng.random() < 0.5 else reuse_spec(rng, n, rng.randint(3, 14))
         mq = rng.randint(1, n)
         c, cbs = build(n, spec)
         hdr = code(n, spec)
@@ -723,8 +821,8 @@ def fusion_variants(ctx):
         ctx.case(("fuse-twice", n, mq, short(spec)))
         if g1 != g2:
             bad += 1
-            ctx.fail("fuse:second-call", f"second call of fuse(max_qubits={mq}) on {short(spec)} gives a different fused queue",
-                     hdr + TWICE_PY.format(mq=mq), expected=str(g1), observed=str(g2), broken=["C07_search_fuse_variants"])
+            ctx.fail("fuse:repeated-object" if has_reuse(spec) else "fuse:second-call", f"second call of fuse(max_qubits={mq}) on {short(spec)} gives a different fused queue",
+                     hdr + TWICE_PY.replace('{mq}', str(mq)), expected=str(g1), observed=str(g2), broken=["C07_search_fuse_variants"])
         psi = int_state(rng, n)
         ref = np.asarray(nb.execute_circuit(c, initial_state=psi.copy()).state())
         # fusing the fused circuit again (FusedGate in the input queue is a barrier)
@@ -734,7 +832,7 @@ def fusion_variants(ctx):
         out1 = np.asarray(nb.execute_circuit(f2, initial_state=psi.copy()).state())
         if np.abs(ref).max(initial=0) <= BIG and (not np.array_equal(out, ref) or not np.array_equal(out1, ref)):
             bad += 1
-            ctx.fail("fuse:refuse", f"c.fuse({mq}).fuse({mq2}) of {short(spec)} changes the final state",
+            ctx.fail("fuse:repeated-object" if has_reuse(spec) else "fuse:refuse", f"c.fuse({mq}).fuse({mq2}) of {short(spec)} changes the final state",
                      hdr + f"psi = np.array({psi.tolist()})\nref = nb.execute_circuit(c, initial_state=psi.copy()).state()\nout = nb.execute_circuit(c.fuse(max_qubits={mq}).fuse(max_qubits={mq2}), initial_state=psi.copy()).state()\nassert np.array_equal(out, ref), (out, ref)\n",
                      expected=str(ref.tolist()), observed=str(out.tolist()), broken=["C07_search_fuse_variants"])
         if [id(g) for g in ff.queue if isinstance(g, gates.M)] != [id(g) for g in c.queue if isinstance(g, gates.M)]:
@@ -753,6 +851,41 @@ def fusion_variants(ctx):
                 bad += 1
                 ctx.fail("fuse:unitary", f"c.fuse({mq}).unitary() differs from c.unitary() for {short(spec)}",
                          hdr + f"assert np.array_equal(c.unitary(nb), c.fuse(max_qubits={mq}).unitary(nb))\n", broken=["C07_search_fuse_variants"])
+    # one gate object shared between TWO circuits: fusing / reducing one must not disturb the other
+    for _ in range(40 if ctx.thorough else 15):
+        n = rng.randint(2, 4)
+        spec1 = reuse_spec(rng, n, rng.randint(3, 10), unitary_only=True)
+        c1, _ = build(n, spec1)
+        from qibo import Circuit
+        c2 = Circuit(n)
+        shared = []
+        for k, g in enumerate(c1.queue):
+            if rng.random() < 0.5:
+                c2.add(g)
+                shared.append(k)
+            elif rng.random() < 0.5:
+                c2.add(gates.Unitary(rand_unitary_int(rng, 1), rng.randrange(n), check_unitary=False))
+        if not shared:
+            c2.add(c1.queue[0])
+        psi = int_state(rng, n)
+        ref1 = np.asarray(nb.execute_circuit(c1, initial_state=psi.copy()).state())
+        ref2 = np.asarray(nb.execute_circuit(c2, initial_state=psi.copy()).state())
+        mq = rng.randint(1, n)
+        f1 = c1.fuse(max_qubits=mq)
+        lc1, _ = c1.light_cone(rng.randrange(n))
+        f2 = c2.fuse(max_qubits=mq)
+        o1 = np.asarray(nb.execute_circuit(f1, initial_state=psi.copy()).state())
+        o2 = np.asarray(nb.execute_circuit(f2, initial_state=psi.copy()).state())
+        o2b = np.asarray(nb.execute_circuit(c2, initial_state=psi.copy()).state())
+        ctx.case(("shared-objects", n, mq, short(spec1), tuple(shared)))
+        if not (np.array_equal(o1, ref1) and np.array_equal(o2, ref2) and np.array_equal(o2b, ref2)):
+            bad += 1
+            ctx.fail("fuse:repeated-object", f"two circuits share gate objects of {short(spec1)} (positions {shared}); after fuse({mq}) / light_cone of the first, a final state changes",
+                     code(n, spec1) + f"c2 = Circuit({n})\nfor k in {shared}:\n    c2.add(c.queue[k])\npsi = np.array({psi.tolist()})\n"
+                     f"r1 = nb.execute_circuit(c, initial_state=psi.copy()).state(); r2 = nb.execute_circuit(c2, initial_state=psi.copy()).state()\n"
+                     f"f1 = c.fuse(max_qubits={mq}); c.light_cone(0); f2 = c2.fuse(max_qubits={mq})\n"
+                     "assert np.array_equal(nb.execute_circuit(f1, initial_state=psi.copy()).state(), r1)\nassert np.array_equal(nb.execute_circuit(f2, initial_state=psi.copy()).state(), r2)\nassert np.array_equal(nb.execute_circuit(c2, initial_state=psi.copy()).state(), r2)\n",
+                     broken=["C07_search_fuse_variants"])
     re_bad = 0
     for (n, spec, mq, mq2, gq), (mo, to) in zip(re_meta, zip(*[iter(run_driver(re_lines, driver=DRV))] * 2) if re_lines else []):
         grp_s, flags = mo.split(" ; ")
@@ -802,7 +935,7 @@ def fusion_variants(ctx):
             ctx.case(("fuse-dm", n, mq, short(spec)))
             if np.abs(ref).max(initial=0) <= BIG and not np.array_equal(out, ref):
                 bad += 1
-                ctx.fail(f"fuse:dm:{key_class(spec)}", f"density-matrix execution of the fused circuit (max_qubits={mq}) of {short(spec)} differs",
+                ctx.fail(fkey("fuse", "dm", spec), f"density-matrix execution of the fused circuit (max_qubits={mq}) of {short(spec)} differs",
                          code(n, spec, density=True) + f"rho = np.array({rho.tolist()})\nref = nb.execute_circuit(c, initial_state=rho.copy()).state()\nout = nb.execute_circuit(c.fuse(max_qubits={mq}), initial_state=rho.copy()).state()\nassert np.array_equal(out, ref), (out, ref)\n",
                          expected=str(ref.tolist()), observed=str(out.tolist()), broken=["C07_search_fuse_variants"])
     # real parametrised gates, default max_qubits, zero initial state and measurement probabilities
@@ -823,17 +956,13 @@ def fusion_variants(ctx):
             if not ok:
                 bad += 1
                 call = "c.fuse()" if mq is None else f"c.fuse(max_qubits={mq})"
-                ctx.fail(f"fuse:float:{key_class(spec)}", f"{call} of {short(spec)} changes the final state / measured probabilities",
+                ctx.fail(fkey("fuse", "float", spec), f"{call} of {short(spec)} changes the final state / measured probabilities",
                          code(n, spec) + f"ref = nb.execute_circuit(c, nshots=10).state()\nout = nb.execute_circuit({call}, nshots=10).state()\nassert np.allclose(out, ref, atol=1e-10), (out, ref)\n",
                          broken=["C07_search_fuse_variants"])
     ctx.ob("C07_search_fuse_variants", bad == 0, "search", f"{bad} failures" if bad else "")
 
 
-TWICE_PY = """def groups(f):
-    ids = {{id(g): i for i, g in enumerate(c.queue)}}
-    return [[ids[id(m)] for m in g.gates] if (isinstance(g, gates.FusedGate) and id(g) not in ids) else [ids[id(g)]] for g in f.queue]
-assert groups(c.fuse(max_qubits={mq})) == groups(c.fuse(max_qubits={mq}))
-"""
+TWICE_PY = POS_PY + "assert groups(c.fuse(max_qubits={mq})) == groups(c.fuse(max_qubits={mq}))\n"
 
 
 # ---------------------------------------------------------------------------
@@ -889,6 +1018,18 @@ def cone_cases(ctx):
         n = rng.randint(2, 6)
         spec = random_spec(rng, n, rng.randint(2, 24), special=False, unitary_only=True, floats=True)
         cases.append((n, spec, "float"))
+    # gate objects added several times
+    for n in (2, 3):
+        pats = reuse_patterns(rng, n, unitary_only=True)
+        if not ctx.thorough and n == 3:
+            pats = rng.sample(pats, 30)
+        cases += [(n, spec, "int") for spec in pats]
+    for _ in range(150 if ctx.thorough else 45):
+        n = rng.randint(2, 5)
+        cases.append((n, reuse_spec(rng, n, rng.randint(2, 14), unitary_only=True), "int"))
+    for _ in range(100 if ctx.thorough else 30):
+        n = rng.randint(2, 5)
+        cases.append((n, reuse_spec(rng, n, rng.randint(2, 14), unitary_only=True, floats=True), "float"))
     return cases
 
 
@@ -995,10 +1136,11 @@ def cone_suite(ctx):
             if not ok:
                 sem_bad += 1
                 init = f"vs = {vs}\n" + PROD_PY if mode == "int" else "psi = None; psic = None; factor = 1\n"
-                ctx.fail(f"cone:reduced:{key_class(spec)}", f"light_cone(*{Sarg}) of {short(spec)}: reduced state on {keep_full} differs from that of the full circuit",
+                ctx.fail(fkey("cone", "reduced", spec), f"light_cone(*{Sarg}) of {short(spec)}: reduced state on {keep_full} differs from that of the full circuit",
                          hdr + RED_PY + init + f"S = {keep_full}\n" + "full = nb.execute_circuit(c, initial_state=psi).state()\ncone = nb.execute_circuit(lc, initial_state=psic).state()\n"
                          "a = reduced(full, c.nqubits, S)\nb = reduced(cone, lc.nqubits, [qmap[q] for q in S]) * factor\nassert np.allclose(a, b, atol=1e-10), (a, b)\n",
-                         expected=str(np.round(r_full, 10).tolist()), observed=str(np.round(r_cone, 10).tolist()), broken=["C07_search_cone_reduced"])
+                         expected=str(np.round(r_full, 10).tolist()), observed=str(np.round(r_cone, 10).tolist()),
+                     broken=["C07_search_cone_reduced", "C07_corr_cone_structure", "C07_corr_cone_reduced"])
             # -- measurements of the cone keep their registers
             ms = [g for g in c.queue if isinstance(g, gates.M)]
             if ms:
@@ -1028,7 +1170,7 @@ def cone_suite(ctx):
         ctx.stat("lean_RED")
         if not np.array_equal(model, real):
             red_bad += 1
-            ctx.fail(f"cone:reduced-vs-model:{key_class(spec)}", f"light_cone(*{Sarg}) of {short(spec)}: reduced state of the cone differs from the Lean model's reduced state of the full circuit",
+            ctx.fail(fkey("cone", "reduced-vs-model", spec), f"light_cone(*{Sarg}) of {short(spec)}: reduced state of the cone differs from the Lean model's reduced state of the full circuit",
                      code(n, spec) + f"lc, qmap = c.light_cone(*{Sarg})\n# expected reduced state (Lean simulator + partial trace of the full circuit): {model.tolist()}\n",
                      expected=str(model.tolist()), observed=str(real.tolist()), broken=["C07_corr_cone_reduced"])
     ctx.ob("C07_corr_cone_structure", struct_bad == 0, "correspondence", f"{struct_bad} light cones differ from the model" if struct_bad else "")
